@@ -72,7 +72,9 @@ func vwReset(maxSubs int) {
 		userStatus: make(chan *userStatusReq, 128),
 		shutdown:   make(chan chan<- bool),
 	}
-	globals.sessionStore = NewSessionStore(time.Hour)
+	if globals.sessionStore == nil {
+		globals.sessionStore = NewSessionStore(time.Hour)
+	}
 	globals.usersUpdate = make(chan *UserCacheReq, 4096)
 	globals.maxSubscriberCount = maxSubs
 	globals.maxTagCount = 16
@@ -393,7 +395,7 @@ func (w *vWorld) loadedTopics() []*Topic {
 		ts = append(ts, t.(*Topic))
 		return true
 	})
-	sort.Slice(ts, func(i, j int) bool { return ts[i].name < ts[j].name })
+	sort.Slice(ts, func(i, j int) bool { return w.tname(ts[i].name) < w.tname(ts[j].name) })
 	return ts
 }
 
@@ -534,7 +536,20 @@ func (w *vWorld) pumpHub() bool {
 			reason = StopDeleted
 		}
 		if unreg.forUser.IsZero() {
+			before := h.topicGet(unreg.rcptTo)
 			h.topicUnreg(unreg.sess, unreg.rcptTo, unreg.pkt, reason)
+			if before != nil && h.topicGet(unreg.rcptTo) == nil {
+				// removed from the hub: its shutDown message is still to be processed by the topic's own loop
+				listed := false
+				for _, x := range vwExiting {
+					if x == before {
+						listed = true
+					}
+				}
+				if !listed {
+					vwExiting = append(vwExiting, before)
+				}
+			}
 		}
 	}
 	return progress
@@ -697,6 +712,9 @@ func (w *vWorld) storeDigest() []string {
 	}
 	sort.Slice(names, func(i, j int) bool { return w.tname(names[i]) < w.tname(names[j]) })
 	for _, n := range names {
+		if n == "sys" {
+			continue
+		}
 		tp := w.ad.Topics[n]
 		subs := []string{}
 		for _, s := range w.ad.vmemSubsOfTopic(n) {
@@ -888,7 +906,10 @@ func (w *vWorld) op(ws []string) (string, bool) {
 		w.crashK, _ = vInt(ws[1])
 		return "ok", true
 	}
-	s := w.sess[ws[1]]
+	var s *Session
+	if len(ws) > 1 {
+		s = w.sess[ws[1]]
+	}
 	if s == nil && ws[0] != "unload" && ws[0] != "timer" && ws[0] != "restart" {
 		return "", false
 	}
@@ -1052,7 +1073,6 @@ func (w *vWorld) op(ws []string) (string, bool) {
 			}
 			dn := time.NewTimer(time.Hour)
 			dn.Stop()
-			vwExiting = append(vwExiting, t)
 			t.handleTopicTimeout(globals.hub, ua, w.uaTimers[t], dn)
 			w.pump()
 		} else {
